@@ -94,3 +94,162 @@ Proof.
     fold (vals (cur_g s')). rewrite <- C. unfold vals. rewrite map_length. reflexivity.
   - simpl. rewrite (IHops s t R). reflexivity.
 Qed.
+
+(* ---------------------------------------------------------------------------------------------- *)
+(* node discipline: over both lists and both free chains every node id occurs exactly once and is
+   below the allocation counter — a node is never in two places, and a recycled node was free *)
+From Coq Require Import Permutation.
+Require Import XV.ContVecModel.
+
+Definition ids_xl (l : xl) : list nat := map fst (lo l) ++ lfree l.
+Definition ids_all (s : gstate) : list nat := ids_xl (g0 s) ++ ids_xl (g1 s).
+Definition ginv (s : gstate) : Prop := NoDup (ids_all s) /\ Forall (fun id => id < gnext s) (ids_all s).
+
+Lemma perm_insert_at : forall p (x : nat) l, Permutation (insert_at p x l) (x :: l).
+Proof.
+  intros. unfold insert_at. rewrite <- (firstn_skipn p l) at 3. symmetry. apply Permutation_middle.
+Qed.
+
+Lemma nth_error_split' : forall (l : list nat) p x, nth_error l p = Some x -> l = firstn p l ++ x :: skipn (S p) l.
+Proof.
+  induction l; intros p x H; destruct p; simpl in *; try discriminate.
+  - inversion H. reflexivity.
+  - f_equal. apply IHl. assumption.
+Qed.
+
+Lemma perm_remove_at : forall (l : list nat) p x, nth_error l p = Some x -> Permutation (x :: remove_at p l) l.
+Proof.
+  intros l p x H. unfold remove_at. rewrite (nth_error_split' l p x H) at 3. apply Permutation_middle.
+Qed.
+
+Lemma perm_move_in : forall p (seg l : list nat), Permutation (move_in p seg l) (seg ++ l).
+Proof.
+  intros. unfold move_in. rewrite <- (firstn_skipn p l) at 3.
+  rewrite app_assoc. rewrite (app_assoc seg). apply Permutation_app_tail. apply Permutation_app_comm.
+Qed.
+
+Lemma perm_segment : forall (l : list nat) a b, a <= b ->
+  Permutation (firstn (b - a) (skipn a l) ++ (firstn a l ++ skipn b l)) l.
+Proof.
+  intros l a b H.
+  assert (E : skipn b l = skipn (b - a) (skipn a l)) by (rewrite skipn_skipn'; f_equal; lia).
+  assert (L : firstn a l ++ firstn (b - a) (skipn a l) ++ skipn b l = l).
+  { rewrite E, firstn_skipn. apply firstn_skipn. }
+  apply (Permutation_trans (Permutation_app_swap_app _ _ _)). rewrite L. reflexivity.
+Qed.
+
+Lemma splice_perm : forall (M S A R B FC FO : list nat),
+  Permutation M (S ++ A) -> Permutation (S ++ R) B ->
+  Permutation ((M ++ FC) ++ R ++ FO) ((A ++ FC) ++ B ++ FO).
+Proof.
+  intros M S A R B FC FO K1 K2. apply (Permutation_count_occ Nat.eq_dec). intros x.
+  pose proof (proj1 (Permutation_count_occ Nat.eq_dec _ _) K1 x) as C1.
+  pose proof (proj1 (Permutation_count_occ Nat.eq_dec _ _) K2 x) as C2.
+  rewrite ?count_occ_app in *. lia.
+Qed.
+
+Lemma map_fst_nth_error : forall (l : list (nat * nat)) p id v, nth_error l p = Some (id, v) -> nth_error (map fst l) p = Some id.
+Proof. intros. rewrite nth_error_map, H. reflexivity. Qed.
+
+Lemma construct_ids : forall l nx p v,
+  (Permutation (ids_xl (fst (construct_node l nx p v))) (ids_xl l) /\ snd (construct_node l nx p v) = nx) \/
+  (Permutation (ids_xl (fst (construct_node l nx p v))) (nx :: ids_xl l) /\ snd (construct_node l nx p v) = S nx).
+Proof.
+  intros. unfold construct_node, ids_xl. destruct (lfree l) as [|id rest]; simpl.
+  - right. split; [|reflexivity]. rewrite (map_insert_at fst), !app_nil_r. apply perm_insert_at.
+  - left. split; [|reflexivity]. rewrite (map_insert_at fst). simpl.
+    rewrite (perm_insert_at p id (map fst (lo l))). simpl. apply Permutation_middle.
+Qed.
+
+Lemma free_ids : forall l p, Permutation (ids_xl (free_node l p)) (ids_xl l).
+Proof.
+  intros. unfold free_node, ids_xl. destruct (nth_error (lo l) p) as [[id v]|] eqn:E; [|reflexivity].
+  simpl. rewrite (map_remove_at fst). rewrite <- Permutation_middle.
+  rewrite <- (perm_remove_at (map fst (lo l)) p id (map_fst_nth_error _ _ _ _ E)) at 2. reflexivity.
+Qed.
+
+Lemma clear_ids : forall l, Permutation (ids_xl (clear_list l)) (ids_xl l).
+Proof. intros. unfold clear_list, ids_xl. simpl. apply Permutation_app_tail. symmetry. apply Permutation_rev. Qed.
+
+Lemma ids_all_cur : forall s, Permutation (ids_all s) (ids_xl (cur_g s) ++ ids_xl (oth_g s)).
+Proof. intros. unfold ids_all, cur_g, oth_g. destruct (gcur s); [apply Permutation_app_comm | reflexivity]. Qed.
+
+Lemma ids_set_cur : forall s x n, Permutation (ids_all (set_cur_g s x n)) (ids_xl x ++ ids_xl (oth_g s)).
+Proof. intros. unfold ids_all, set_cur_g, oth_g. destruct (gcur s); simpl; [apply Permutation_app_comm | reflexivity]. Qed.
+
+Lemma ids_set_both : forall s c o, Permutation (ids_all (set_both_g s c o)) (ids_xl c ++ ids_xl o).
+Proof. intros. unfold ids_all, set_both_g. destruct (gcur s); simpl; [apply Permutation_app_comm | reflexivity]. Qed.
+
+Lemma gstep_ids : forall s o s' r, gstep s o = Some (s', r) ->
+  (Permutation (ids_all s') (ids_all s) /\ gnext s' = gnext s) \/
+  (Permutation (ids_all s') (gnext s :: ids_all s) /\ gnext s' = S (gnext s)).
+Proof.
+  intros s o s' r H.
+  assert (Cons : forall p v l' nx, construct_node (cur_g s) (gnext s) p v = (l', nx) ->
+    (Permutation (ids_all (set_cur_g s l' nx)) (ids_all s) /\ gnext (set_cur_g s l' nx) = gnext s) \/
+    (Permutation (ids_all (set_cur_g s l' nx)) (gnext s :: ids_all s) /\ gnext (set_cur_g s l' nx) = S (gnext s))).
+  { intros p v l' nx E. pose proof (construct_ids (cur_g s) (gnext s) p v) as K. rewrite E in K. simpl in K.
+    assert (Gn : gnext (set_cur_g s l' nx) = nx) by (unfold set_cur_g; destruct (gcur s); reflexivity).
+    rewrite Gn. destruct K as [[K1 K2]|[K1 K2]]; [left | right]; (split; [|assumption]);
+      rewrite ids_set_cur, (ids_all_cur s), K1; reflexivity. }
+  assert (Same : forall x, Permutation (ids_xl x) (ids_xl (cur_g s)) ->
+    Permutation (ids_all (set_cur_g s x (gnext s))) (ids_all s) /\ gnext (set_cur_g s x (gnext s)) = gnext s).
+  { intros x K. split; [rewrite ids_set_cur, (ids_all_cur s), K; reflexivity | unfold set_cur_g; destruct (gcur s); reflexivity]. }
+  assert (Both : forall c o0, Permutation (ids_xl c ++ ids_xl o0) (ids_xl (cur_g s) ++ ids_xl (oth_g s)) ->
+    Permutation (ids_all (set_both_g s c o0)) (ids_all s) /\ gnext (set_both_g s c o0) = gnext s).
+  { intros c o0 K. split; [rewrite ids_set_both, (ids_all_cur s), K; reflexivity | unfold set_both_g; destruct (gcur s); reflexivity]. }
+  destruct o; unfold gstep in H.
+  - destruct (construct_node (cur_g s) (gnext s) (length (lo (cur_g s))) v) as [l' nx] eqn:E. inversion H; subst. eapply Cons; eassumption.
+  - destruct (construct_node (cur_g s) (gnext s) 0 v) as [l' nx] eqn:E. inversion H; subst. eapply Cons; eassumption.
+  - destruct (length (lo (cur_g s)) =? 0); [discriminate|]. inversion H; subst. left. apply Same, free_ids.
+  - destruct (length (lo (cur_g s)) =? 0); [discriminate|]. inversion H; subst. left. apply Same, free_ids.
+  - destruct (length (lo (cur_g s)) <? p); [discriminate|].
+    destruct (construct_node (cur_g s) (gnext s) p v) as [l' nx] eqn:E. inversion H; subst. eapply Cons; eassumption.
+  - destruct (p <? length (lo (cur_g s))); [|discriminate]. inversion H; subst. left. apply Same, free_ids.
+  - destruct (length (lo (cur_g s)) =? 0); [discriminate|]. inversion H; subst. left. split; reflexivity.
+  - destruct (length (lo (cur_g s)) =? 0); [discriminate|]. inversion H; subst. left. split; reflexivity.
+  - inversion H; subst. left. split; reflexivity.
+  - inversion H; subst. left. apply Same, clear_ids.
+  - inversion H; subst. left. split; [|reflexivity]. unfold ids_all. simpl. apply Permutation_app_comm.
+  - inversion H; subst. left. split; reflexivity.
+  - destruct ((p <=? length (lo (cur_g s))) && (q <? length (lo (oth_g s)))) eqn:G; [|discriminate]. inversion H; subst. left.
+    apply andb_prop in G. destruct G as [_ G]. apply Nat.ltb_lt in G.
+    apply Both. unfold ids_xl. cbn [lo lfree].
+    change (match skipn q (lo (oth_g s)) with [] => [] | a0 :: _ => [a0] end) with (firstn 1 (skipn q (lo (oth_g s)))).
+    rewrite (map_move_in fst), (map_remove_at fst), <- firstn_map, <- skipn_map.
+    apply (splice_perm _ (firstn 1 (skipn q (map fst (lo (oth_g s)))))); [apply perm_move_in|].
+    unfold remove_at. replace 1 with (S q - q) by lia. apply perm_segment. lia.
+  - destruct ((p <=? length (lo (cur_g s))) && (a <=? b) && (b <=? length (lo (oth_g s)))) eqn:G; [|discriminate]. inversion H; subst. left.
+    apply andb_prop in G. destruct G as [G _]. apply andb_prop in G. destruct G as [_ G]. apply Nat.leb_le in G.
+    apply Both. unfold ids_xl. cbn [lo lfree].
+    rewrite (map_move_in fst), map_app, <- !firstn_map, <- !skipn_map.
+    apply (splice_perm _ (firstn (b - a) (skipn a (map fst (lo (oth_g s)))))); [apply perm_move_in|].
+    apply perm_segment. assumption.
+  - destruct ((p <=? length (lo (cur_g s))) && (q <? length (lo (cur_g s)))) eqn:G; [|discriminate]. inversion H; subst. left.
+    apply andb_prop in G. destruct G as [_ G]. apply Nat.ltb_lt in G.
+    apply Same. destruct (p =? q); [reflexivity|]. unfold ids_xl. cbn [lo lfree].
+    apply Permutation_app_tail.
+    change (match skipn q (lo (cur_g s)) with [] => [] | a0 :: _ => [a0] end) with (firstn 1 (skipn q (lo (cur_g s)))).
+    rewrite (map_move_in fst), (map_remove_at fst), <- firstn_map, <- skipn_map.
+    set (A := map fst (lo (cur_g s))). rewrite perm_move_in.
+    unfold remove_at. replace 1 with (S q - q) by lia. apply perm_segment. lia.
+Qed.
+
+Lemma ginv_step : forall s o s' r, ginv s -> gstep s o = Some (s', r) -> ginv s'.
+Proof.
+  intros s o s' r (N & F) H. destruct (gstep_ids s o s' r H) as [[P E]|[P E]]; unfold ginv; rewrite E.
+  - split; [apply (Permutation_NoDup (Permutation_sym P) N)|].
+    rewrite Forall_forall in *. intros id Hid. apply F. apply (Permutation_in _ P). assumption.
+  - split.
+    + apply (Permutation_NoDup (Permutation_sym P)). constructor; [|assumption].
+      intros Hin. rewrite Forall_forall in F. specialize (F _ Hin). lia.
+    + rewrite Forall_forall in *. intros id Hid. apply (Permutation_in _ P) in Hid. destruct Hid as [<-|Hid]; [lia|].
+      specialize (F _ Hid). lia.
+Qed.
+
+Theorem list_nodes_unique_lemma : forall ops s, ginv s -> ginv (gfinal s ops).
+Proof.
+  induction ops; intros s I; simpl; [assumption|].
+  destruct (gstep s a) as [[s' r]|] eqn:E; [|apply IHops; assumption].
+  apply IHops. eapply ginv_step; eassumption.
+Qed.
